@@ -409,3 +409,14 @@ package variants
 //@   before return#20: assert [c18.error.first] len(recvd(cErr)) == 1 && err == recvd(cErr)[0]
 //@   before return#21: assert [c18.nil.means.clean] len(recvd(cErr)) == 0 && len(recvd(cMSADone)) == 1 && len(recvd(cVariantsDone)) == 1 && len(recvd(cWriteDone)) == 1
 //@   ensures [local.c18.error.returned] implies(gErrSeen, result != nil)
+
+//@ # C04/C14: GenBank side of the region list: one region per CDS feature, in file order (nothing else becomes a region, no
+//@ # CDS is skipped), each built by CDSRegion2fromGenbank from THAT feature; a feature that cannot be turned into a region is
+//@ # an error; the intergenic list is codes() of exactly these regions and the reference length given.
+//@ func RegionsFromGenbank
+//@   modifies everything
+//@   loop 1:
+//@     invariant freshslice(cds) && len(cds) == count(t, 0, range_i, gb.FEATURES[t].Feature == "CDS")
+//@   before call:CDSRegion2fromGenbank#1: assert [c14.feature] arg(0) == f && f.Feature == "CDS"
+//@   before call:codes#1: assert [c04.inter.args] sameslice(arg(0), cds) && arg(1) == refLength && len(cds) == count(t, 0, len(gb.FEATURES), gb.FEATURES[t].Feature == "CDS")
+//@   ensures [c14.count] implies(result3 == nil, len(result1) == count(t, 0, len(gb.FEATURES), gb.FEATURES[t].Feature == "CDS"))
